@@ -15,12 +15,15 @@ import (
 	"regexp"
 	"strconv"
 	"strings"
+
+	"gosym/smt"
 )
 
 type cKernels struct {
 	funcs   map[string]*llFunc
 	globals map[string][]value // constant integer tables
 	gwidth  map[string]int
+	structs map[string][]string // %struct.name -> field type token lists (joined by space)
 	Sources []string
 }
 
@@ -46,16 +49,22 @@ type llFunc struct {
 }
 
 type llptr struct {
-	mem  []value // byte memory (base)
-	off  int
-	glob string // global table name (element index = off)
+	mem    []value    // byte memory (base)
+	off    int
+	glob   string     // global table name (element index = off)
+	soff   *smt.Term  // 64-bit symbolic byte offset added to off (nil: none)
+	smax   uint64     // conservative unsigned maximum of soff (^0: unknown)
+	salign int        // soff is a multiple of salign (0/1: unknown)
+	reg    *logRegion // sparse scratch region (see ckernel_mem.go)
+	undef  bool       // pointer value read from uninitialised memory
+	base   uint64     // model address of the start of the object (for ptrtoint / comparisons)
 }
 
 var preambleRe = regexp.MustCompile(`(?s)/\*(.*?)\*/\s*import "C"`)
 
 // loadCKernels extracts, compiles and parses the kernels in the given Go files.
 func loadCKernels(work string, files []string) (*cKernels, error) {
-	ck := &cKernels{funcs: map[string]*llFunc{}, globals: map[string][]value{}, gwidth: map[string]int{}}
+	ck := newCKernels()
 	os.MkdirAll(work, 0755)
 	for _, f := range files {
 		src, err := os.ReadFile(f)
@@ -88,8 +97,31 @@ func loadCKernels(work string, files []string) (*cKernels, error) {
 	return ck, nil
 }
 
+func newCKernels() *cKernels {
+	return &cKernels{funcs: map[string]*llFunc{}, globals: map[string][]value{}, gwidth: map[string]int{}, structs: map[string][]string{}}
+}
+
+// loadCFile compiles a whole C file of the repository (quicklz.c) and adds its functions.
+func (ck *cKernels) loadCFile(work, cfile string, incl string) error {
+	lpath := filepath.Join(work, "ck_"+strings.TrimSuffix(filepath.Base(cfile), ".c")+".ll")
+	out, err := exec.Command("clang", "-O1", "-fno-unroll-loops", "-fno-vectorize", "-fno-slp-vectorize", "-S", "-emit-llvm", "-I", incl, cfile, "-o", lpath).CombinedOutput()
+	if err != nil {
+		return fmt.Errorf("clang %s: %v\n%s", cfile, err, out)
+	}
+	ir, err := os.ReadFile(lpath)
+	if err != nil {
+		return err
+	}
+	if err := ck.parse(string(ir)); err != nil {
+		return fmt.Errorf("%s: %v", cfile, err)
+	}
+	ck.Sources = append(ck.Sources, cfile)
+	return nil
+}
+
 var (
-	globRe  = regexp.MustCompile(`^@(\w+) = .*constant \[(\d+) x i(\d+)\] \[(.*)\]`)
+	structRe = regexp.MustCompile(`^(%[\w.]+) = type \{ (.*) \}`)
+	globRe  = regexp.MustCompile(`^@([\w.]+) = .*constant \[(\d+) x i(\d+)\] \[(.*)\]`)
 	defRe   = regexp.MustCompile(`^define .*? @(\w+)\((.*)\)`)
 	labelRe = regexp.MustCompile(`^(\w+):`)
 )
@@ -99,6 +131,10 @@ func (ck *cKernels) parse(ir string) error {
 	var cur *llFunc
 	var blk *llBlock
 	for _, ln := range lines {
+		if m := structRe.FindStringSubmatch(ln); m != nil {
+			ck.structs[m[1]] = splitTop(m[2])
+			continue
+		}
 		if m := globRe.FindStringSubmatch(ln); m != nil {
 			w, _ := strconv.Atoi(m[3])
 			var vals []value
@@ -276,6 +312,7 @@ type llFrame struct {
 	fr   *frame
 	ck   *cKernels
 	regs map[string]value
+	fn   string
 }
 
 func (lf *llFrame) operand(ty, tok string) value {
@@ -291,6 +328,12 @@ func (lf *llFrame) operand(ty, tok string) value {
 	}
 	if tok == "null" {
 		return llptr{}
+	}
+	if tok == "undef" || tok == "poison" {
+		if strings.HasSuffix(ty, "*") || ty == "ptr" {
+			return llptr{undef: true}
+		}
+		return llConst(llWidth(ty), 0)
 	}
 	if tok == "true" {
 		return true
@@ -311,9 +354,14 @@ func (ck *cKernels) call(fr *frame, name string, args []value) value {
 	if f == nil {
 		panic(engineAbort{psInconclusive, "C function not in the extracted kernels: " + name})
 	}
-	lf := &llFrame{i: fr.i, fr: fr, ck: ck, regs: map[string]value{}}
+	lf := &llFrame{i: fr.i, fr: fr, ck: ck, regs: map[string]value{}, fn: name}
 	for k, p := range f.params {
-		lf.regs[p] = args[k]
+		a := args[k]
+		if lp, ok := a.(llptr); ok && lp.base == 0 && !lp.isNull() && !lp.undef {
+			lp.base = uint64(k+1) << 32 // objects live far apart at 16-aligned model addresses
+			a = lp
+		}
+		lf.regs[p] = a
 	}
 	cur, prev := f.entry, ""
 	for {
@@ -463,26 +511,16 @@ func (lf *llFrame) exec(in llInstr) value {
 		pred, ty := t[1], t[2]
 		x, y := lf.operand(ty, t[3]), lf.operand(ty, t[4])
 		if px, ok := x.(llptr); ok {
-			py := y.(llptr)
-			switch pred {
-			case "eq":
-				return px.off == py.off && sameMem(px.mem, py.mem) && px.glob == py.glob
-			case "ne":
-				return !(px.off == py.off && sameMem(px.mem, py.mem) && px.glob == py.glob)
-			case "ult":
-				return px.off < py.off
-			case "ule":
-				return px.off <= py.off
-			case "ugt":
-				return px.off > py.off
-			case "uge":
-				return px.off >= py.off
-			}
-			panic(engineAbort{psInconclusive, "llvm: pointer compare " + pred})
+			return lf.cmpPtr(pred, px, y.(llptr))
 		}
 		w := llWidth(ty)
 		if pred[0] == 's' {
 			x, y = toKind(x, sKind(w)), toKind(y, sKind(w))
+		}
+		if !isSym(x) && !isSym(y) && (pred == "eq" || pred == "ne") {
+			_, rx, _ := concKind(forceLazy(x))
+			_, ry, _ := concKind(forceLazy(y))
+			return (rx&maskW(w) == ry&maskW(w)) == (pred == "eq")
 		}
 		switch pred {
 		case "eq":
@@ -499,35 +537,42 @@ func (lf *llFrame) exec(in llInstr) value {
 			return binop(token.GEQ, nil, x, y)
 		}
 	case "getelementptr":
-		// getelementptr i8, i8* %p, i64 %idx        | getelementptr [256 x i32], [256 x i32]* @tab, i64 0, i64 %idx
-		if t[1] == "[" {
-			// [ N x iW ] [ N x iW ] * @g i64 0 i64 %idx
-			// tokens: [ N x iW ] [ N x iW ] * @g i64 0 i64 idx  -> find '@'
-			var g string
-			var k int
-			for k = range t {
-				if strings.HasPrefix(t[k], "@") {
-					g = t[k][1:]
-					break
-				}
-			}
-			idx := lf.operand(t[k+3], t[k+4])
+		// getelementptr T, T* base, i64 idx0 [, iN idx1 ...]
+		ty, j := lf.ck.parseType(t, 1)
+		_, j = lf.ck.parseType(t, j)
+		baseTok := t[j]
+		j++
+		if strings.HasPrefix(baseTok, "@") {
+			// constant table: [N x iW]* @g, i64 0, i64 idx
+			g := baseTok[1:]
+			idx := lf.operand(t[j+2], t[j+3])
 			if _, ok := idx.(sv); ok {
 				return llptrSym{glob: g, idx: idx}
 			}
 			return llptr{glob: g, off: int(asInt64(idx))}
 		}
-		base := lf.operand("ptr", t[3])
-		idx := lf.operand(t[4], t[5])
-		p, ok := base.(llptr)
+		p, ok := lf.operand("ptr", baseTok).(llptr)
 		if !ok {
 			panic(engineAbort{psInconclusive, "llvm: gep base"})
 		}
-		n := int(asInt64(toKind(idx, types.Int64)))
-		if t[1] != "i8" {
-			panic(engineAbort{psInconclusive, "llvm: gep over " + t[1]})
+		first := true
+		for ; j+1 < len(t); j += 2 {
+			idx := lf.operand(t[j], t[j+1])
+			switch {
+			case first:
+				p = lf.addIdx(p, idx, ty.size())
+				first = false
+			case ty.kind == 'a':
+				ty = ty.elem
+				p = lf.addIdx(p, idx, ty.size())
+			case ty.kind == 's':
+				k := int(asInt64(idx))
+				p.off += ty.fieldOff(k)
+				ty = ty.fields[k]
+			default:
+				panic(engineAbort{psInconclusive, "llvm: gep into scalar"})
+			}
 		}
-		p.off += n
 		return p
 	case "load":
 		// load i8, i8* %p, align 1
@@ -541,36 +586,76 @@ func (lf *llFrame) exec(in llInstr) value {
 				}
 				return tab[p.off]
 			}
-			full := p.mem[:cap(p.mem)]
-			w := llWidth(ty) / 8
-			if p.off < 0 || p.off+w > len(full) {
-				panic(memError(fmt.Sprintf("C kernel reads %d byte(s) at offset %d of a %d-byte object", w, p.off, len(full))))
-			}
-			if w == 1 {
-				v := full[p.off]
-				if _, bad := v.(poison); bad {
-					panic(memError("C kernel reads freed memory"))
+			if strings.HasSuffix(ty, "*") || ty == "ptr" {
+				if p.reg == nil {
+					panic(engineAbort{psInconclusive, "llvm: pointer load from byte memory"})
 				}
-				return v
+				return p.reg.load(lf, p, 8, true)
 			}
-			return leCombine(full[p.off:p.off+w], uKind(8*w))
+			return lf.loadInt(p, llWidth(ty))
 		case llptrSym:
 			return symRead(lf.fr, lf.ck.globals[p.glob], p.idx)
 		}
+	case "store":
+		// store i32 %v, i32* %p, align 4
+		ty := t[1]
+		p, ok := lf.operand("ptr", t[4]).(llptr)
+		if !ok {
+			panic(engineAbort{psInconclusive, "llvm: store target"})
+		}
+		v := lf.operand(ty, t[2])
+		if strings.HasSuffix(ty, "*") || ty == "ptr" {
+			if p.reg == nil {
+				panic(engineAbort{psInconclusive, "llvm: pointer store to byte memory"})
+			}
+			p.reg.store(lf, p, 8, v)
+			return nil
+		}
+		lf.storeInt(p, llWidth(ty), v)
+		return nil
+	case "ptrtoint":
+		return lf.addrOf(lf.operand("ptr", t[2]).(llptr))
 	case "call":
 		// call i32 @bcmp ( i8* %a i8* %b i64 %n )
-		var fn string
-		var k int
-		for k = range t {
-			if strings.HasPrefix(t[k], "@") {
-				fn = t[k][1:]
-				break
+		fn, args, rty := lf.callArgs(in.text)
+		switch {
+		case strings.HasPrefix(fn, "llvm.memset."):
+			p := args[0].(llptr)
+			n := int(concInt(args[2], "memset-len"))
+			if p.reg != nil {
+				p.reg.memset(lf, p, n, args[1])
+				return nil
 			}
+			for k, m := 0, lf.memRange(p, n, "memset"); k < len(m); k++ {
+				m[k] = toKind(args[1], types.Uint8)
+			}
+			return nil
+		case strings.HasPrefix(fn, "llvm.memcpy.") || strings.HasPrefix(fn, "llvm.memmove."):
+			d, sp := args[0].(llptr), args[1].(llptr)
+			if d.reg != nil || sp.reg != nil {
+				panic(engineAbort{psInconclusive, "llvm: memcpy on the scratch region"})
+			}
+			n := int(concInt(args[2], "memcpy-len"))
+			sm := lf.memRange(sp, n, "read (memcpy)")
+			dm := lf.memRange(d, n, "write (memcpy)")
+			checkPoisonC(lf, sm)
+			checkPoisonC(lf, dm)
+			tmp := append([]value(nil), sm...)
+			copy(dm, tmp)
+			return nil
+		case strings.HasPrefix(fn, "llvm.umin."), strings.HasPrefix(fn, "llvm.umax."):
+			lt := binop(token.LSS, nil, args[0], args[1])
+			if strings.HasPrefix(fn, "llvm.umax.") {
+				return lf.iteVal(lt, args[1], args[0])
+			}
+			return lf.iteVal(lt, args[0], args[1])
+		case strings.HasPrefix(fn, "llvm.lifetime."), strings.HasPrefix(fn, "llvm.assume"), strings.HasPrefix(fn, "llvm.experimental.noalias"):
+			return nil
 		}
-		var args []value
-		for j := k + 2; j+1 < len(t) && t[j] != ")"; j += 2 {
-			args = append(args, lf.operand(t[j], t[j+1]))
+		if callee := lf.ck.funcs[fn]; callee != nil {
+			return lf.ck.call(lf.fr, fn, args)
 		}
+		_ = rty
 		switch fn {
 		case "bcmp", "memcmp":
 			a, b := args[0].(llptr), args[1].(llptr)
@@ -586,7 +671,7 @@ func (lf *llFrame) exec(in llInstr) value {
 			if fn == "memcmp" && !isTrueVal(eq) {
 				// sign only matters when callers test <0/>0; kernels here test ==0
 			}
-			w := llWidth(t[1])
+			w := llWidth(rty)
 			if s, ok := eq.(sv); ok {
 				bb := s.t.B
 				return mkSV(bb.Ite(s.t, bb.Const(w, 0), bb.Const(w, 1)), uKind(w))
@@ -600,16 +685,7 @@ func (lf *llFrame) exec(in llInstr) value {
 	case "select":
 		c := lf.operand("i1", t[2])
 		x, y := lf.operand(t[3], t[4]), lf.operand(t[5], t[6])
-		if s, ok := c.(sv); ok {
-			bb := s.t.B
-			tx, k := termOf(bb, x)
-			ty, _ := termOf(bb, y)
-			return mkSV(bb.Ite(s.t, tx, ty), k)
-		}
-		if c.(bool) {
-			return x
-		}
-		return y
+		return lf.iteVal(c, x, y)
 	case "bitcast":
 		return lf.operand(t[1], t[2])
 	}
@@ -673,4 +749,29 @@ func init() {
 		r := ck.call(fr, "find", []value{cPtrArg(args[0]), cPtrArg(args[1]), toKind(args[2], types.Uint32), toKind(args[3], types.Uint32), toKind(args[4], types.Uint32)})
 		return toKind(r, types.Int32)
 	})
+}
+
+// quicklz.c executed from its LLVM IR (vrt.QlzReal). The compressor's scratch buffer (hash
+// table) is a sparse log region; source, destination and the decompressor's 16-byte scratch are
+// the caller's real byte memories, so every out-of-object access is detected.
+func qlzCK(fr *frame) *cKernels {
+	ck := fr.i.env.CKernels
+	if ck == nil || ck.funcs["qlz_decompress"] == nil {
+		panic(engineAbort{psInconclusive, "quicklz.c not loaded"})
+	}
+	return ck
+}
+
+func qlzRealCompress(fr *frame, args []value) value {
+	ck := qlzCK(fr)
+	scratch := cPtrArg(args[3])
+	reg := &logRegion{size: cap(scratch.mem)}
+	r := ck.call(fr, "qlz_compress", []value{cPtrArg(args[0]), cPtrArg(args[1]), toKind(args[2], types.Uint64), llptr{reg: reg}})
+	return toKind(r, types.Uint64)
+}
+
+func qlzRealDecompress(fr *frame, args []value) value {
+	ck := qlzCK(fr)
+	r := ck.call(fr, "qlz_decompress", []value{cPtrArg(args[0]), cPtrArg(args[1]), cPtrArg(args[2])})
+	return toKind(r, types.Uint64)
 }
